@@ -60,6 +60,20 @@ pub struct Round {
     /// round have been delivered: they must be delivered while output is still pending
     #[serde(default)]
     pub hold_stall: bool,
+    /// the call under test is `Terminal::position()` instead of `poll(timeout)`: it polls
+    /// internally until the terminal has answered, and must not lose what arrives meanwhile
+    #[serde(default)]
+    pub position: Option<PosRound>,
+}
+
+#[derive(Clone, Debug, Serialize, Deserialize)]
+pub struct PosRound {
+    /// the terminal answers the cursor position request this late
+    pub delay_ms: u16,
+    /// cursor position it reports (1-based)
+    pub at: (u8, u8),
+    /// characters the user types right behind the answer (same write)
+    pub post: String,
 }
 
 #[derive(Clone, Copy, Debug, PartialEq, Eq, Serialize, Deserialize)]
@@ -77,6 +91,10 @@ pub enum Exit {
     Signal(u8),
     /// the master side is closed before the terminal object is dropped
     MasterClosed,
+    /// drop while the front chunk of the output queue is partly transmitted: the peer is
+    /// stalled, `big` bytes are written, flushed and polled, `small` more bytes are written and
+    /// flushed, the peer resumes and the terminal object is dropped at once
+    DropBackpressure { big: usize, small: usize },
     /// a termination signal (0 TERM, 1 INT, 2 QUIT) arrives while the terminal object is being
     /// released: raised at schedule point `point` of the first poll iteration inside drop
     SignalInDispose { which: u8, point: u8 },
@@ -157,9 +175,16 @@ fn run_session(case: &Case) -> Result<(Pass, bool), Fail> {
 
     for (ri, round) in case.rounds.iter().enumerate() {
         // optional pending output
-        let held = round.hold_stall && round.pending_output > 4096 && round.timeout != Timeout::Infinite;
+        let held = round.hold_stall && round.pending_output > 4096 && round.timeout != Timeout::Infinite && round.position.is_none();
+        if let Some(pr) = &round.position {
+            let st = &sess.peer.state;
+            st.cpr_row.store(pr.at.0.max(2) as usize, Ordering::SeqCst);
+            st.cpr_col.store(pr.at.1.max(1) as usize, Ordering::SeqCst);
+            st.reply_delay_ms.store(pr.delay_ms as usize, Ordering::SeqCst);
+            *st.reply_suffix.lock().unwrap() = pr.post.clone().into_bytes();
+        }
         if round.pending_output > 0 {
-            if round.pending_output > 4096 {
+            if round.pending_output > 4096 && round.position.is_none() {
                 // the peer stops draining for 30 ms (it eventually drains: assumption of the
                 // property), or -- held stall -- until this round's events have been delivered
                 sess.peer.state.stalled.store(true, Ordering::Relaxed);
@@ -223,10 +248,12 @@ fn run_session(case: &Case) -> Result<(Pass, bool), Fail> {
             }
         }
         // the poll under test
-        let timeout = match round.timeout {
-            Timeout::Zero => Some(Duration::ZERO),
-            Timeout::Ms50 => Some(Duration::from_millis(50)),
-            Timeout::Infinite => None,
+        let timeout = match (round.timeout, &round.position) {
+            // position() polls without timeout
+            (_, Some(_)) => None,
+            (Timeout::Zero, _) => Some(Duration::ZERO),
+            (Timeout::Ms50, _) => Some(Duration::from_millis(50)),
+            (Timeout::Infinite, _) => None,
         };
         // a poll without timeout must be guaranteed something to return for: if the action is
         // placed inside the poll it fires there; a rescue wake after 3 s tells a lost wake-up
@@ -268,7 +295,14 @@ fn run_session(case: &Case) -> Result<(Pass, bool), Fail> {
             None
         };
         let mut events: Vec<TerminalEvent> = Vec::new();
-        let first = term.poll(timeout);
+        let mut reported = None;
+        let first = match &round.position {
+            None => term.poll(timeout),
+            Some(_) => term.position().map(|p| {
+                reported = Some(p);
+                None
+            }),
+        };
         done.store(true, Ordering::Relaxed);
         if let Some(h) = rescue {
             let _ = h.join();
@@ -276,6 +310,11 @@ fn run_session(case: &Case) -> Result<(Pass, bool), Fail> {
         unix_verif_hooks::set_point_hook(None);
         if !held {
             sess.peer.state.stalled.store(false, Ordering::Relaxed);
+        }
+        if round.position.is_some() {
+            let st = &sess.peer.state;
+            st.cpr_row.store(0, Ordering::SeqCst);
+            st.reply_delay_ms.store(0, Ordering::SeqCst);
         }
         if matches!(round.place, Place::At { .. }) && fired.get() {
             inside_poll = true;
@@ -290,10 +329,12 @@ fn run_session(case: &Case) -> Result<(Pass, bool), Fail> {
         if rescued.load(Ordering::Relaxed) {
             rescue_used = true;
             if fired.get() {
-                let what = match round.what {
-                    What::Wake { .. } => "wake/lost-poll-did-not-return",
-                    What::Input(_) => "input/poll-did-not-return",
-                    What::Winch => "signal/winch-poll-did-not-return",
+                let what = match (&round.what, &round.position) {
+                    // position() returns when the terminal has answered, nothing else ends it
+                    (_, Some(_)) => "position/did-not-return",
+                    (What::Wake { .. }, _) => "wake/lost-poll-did-not-return",
+                    (What::Input(_), _) => "input/poll-did-not-return",
+                    (What::Winch, _) => "signal/winch-poll-did-not-return",
                 };
                 return Err(Fail::new(
                     what,
@@ -379,7 +420,25 @@ fn run_session(case: &Case) -> Result<(Pass, bool), Fail> {
         }
         // bytes typed on the master side travel through a kernel work queue before the slave
         // can read them: give them a bounded time to arrive (2 s), then they count as lost
-        if let What::Input(s) = &round.what {
+        let post = round.position.as_ref().map(|p| p.post.as_str()).unwrap_or("");
+        let expect_typed: String = match &round.what {
+            What::Input(s) => format!("{s}{post}"),
+            _ => post.to_string(),
+        };
+        if let Some(pr) = &round.position {
+            // (what position() returns is not part of this property; `CSI 1;n R` is ambiguous
+            // with a modified F3 key anyway, so row 1 is never reported)
+            let want = surf_n_term::Position::new(pr.at.0.max(2) as usize - 1, pr.at.1.max(1) as usize - 1);
+            if reported == Some(want) {
+                labels.push("position-call-returned-the-reported-position");
+            }
+            labels.push("position-call");
+            if pr.delay_ms >= 1000 {
+                labels.push("position-call-answered-after-1s");
+            }
+        }
+        if !expect_typed.is_empty() {
+            let s = &expect_typed;
             let typed_count = |events: &[TerminalEvent]| {
                 events
                     .iter()
@@ -398,6 +457,27 @@ fn run_session(case: &Case) -> Result<(Pass, bool), Fail> {
             }
         }
         let wakes = events.iter().filter(|e| matches!(e, TerminalEvent::Wake)).count();
+        if !post.is_empty() && !matches!(round.what, What::Input(_)) {
+            let typed: String = events
+                .iter()
+                .filter_map(|e| match e {
+                    TerminalEvent::Key(k) if k.mode.is_empty() => match k.name {
+                        KeyName::Char(c) if c != '~' => Some(c),
+                        _ => None,
+                    },
+                    _ => None,
+                })
+                .collect();
+            ensure!(
+                typed == post,
+                "input/lost-or-reordered",
+                "round {ri} ({:?}): the peer typed {:?} behind its answer to the position request but the events carry {:?}; events {:?}",
+                round,
+                post,
+                typed,
+                events
+            );
+        }
         match &round.what {
             What::Wake { threads } => {
                 let calls = (*threads).max(1) as usize;
@@ -418,7 +498,8 @@ fn run_session(case: &Case) -> Result<(Pass, bool), Fail> {
                     labels.push("concurrent-wakes");
                 }
             }
-            What::Input(s) => {
+            What::Input(_) => {
+                let s = &expect_typed;
                 let typed: String = events
                     .iter()
                     .filter_map(|e| match e {
@@ -440,6 +521,9 @@ fn run_session(case: &Case) -> Result<(Pass, bool), Fail> {
                 );
                 ensure!(wakes == 0, "wake/spurious", "round {ri}: Wake event without a wake call");
                 labels.push("input");
+                if !post.is_empty() {
+                    labels.push("typed-around-the-answer-to-position");
+                }
             }
             What::Winch => {
                 let resizes = events.iter().filter(|e| matches!(e, TerminalEvent::Resize(_))).count();
@@ -523,6 +607,22 @@ fn run_session(case: &Case) -> Result<(Pass, bool), Fail> {
         }
         Exit::MasterClosed => {
             expect_epilogue = false;
+        }
+        Exit::DropBackpressure { big, small } => {
+            let st = &sess.peer.state;
+            st.stalled.store(true, Ordering::SeqCst);
+            // let the peer reach its stalled state, then fill the tty
+            std::thread::sleep(Duration::from_millis(1));
+            term.write_all(&vec![b'B'; big]).map_err(|e| Fail::new("session/write-error", format!("{e:?}")))?;
+            term.flush().map_err(|e| Fail::new("session/write-error", format!("{e:?}")))?;
+            term.poll(Some(Duration::ZERO)).map_err(|e| Fail::new("session/poll-error", format!("{e:?}")))?;
+            term.write_all(&vec![b's'; small]).map_err(|e| Fail::new("session/write-error", format!("{e:?}")))?;
+            term.flush().map_err(|e| Fail::new("session/write-error", format!("{e:?}")))?;
+            term.poll(Some(Duration::ZERO)).map_err(|e| Fail::new("session/poll-error", format!("{e:?}")))?;
+            if term.frames_pending() > 1 {
+                labels.push("drop-with-chunk-in-flight");
+            }
+            st.stalled.store(false, Ordering::SeqCst);
         }
         Exit::SignalInDispose { which, point } => {
             let sig = [libc::SIGTERM, libc::SIGINT, libc::SIGQUIT][which as usize % 3];
@@ -636,7 +736,9 @@ fn finish(labels: Vec<&'static str>, inside_poll: bool, master_closed: bool) -> 
         inside_poll
             || labels.contains(&"drop-with-pending-output")
             || labels.contains(&"output-pending")
-            || labels.contains(&"termination-signal-during-release"),
+            || labels.contains(&"termination-signal-during-release")
+            || labels.contains(&"drop-with-chunk-in-flight")
+            || labels.contains(&"position-call"),
     )
         .label_if(inside_poll, "placed-inside-poll")
         .label_if(master_closed, "master-closed-first");
@@ -673,7 +775,30 @@ impl Property for C17 {
         ];
         let timeout = prop_oneof![3 => Just(Timeout::Zero), 2 => Just(Timeout::Ms50), 2 => Just(Timeout::Infinite)];
         let pending = prop_oneof![4 => Just(0usize), 2 => 1usize..2000, 1 => 5000usize..40000];
-        let round = (what, place, timeout, pending, any::<bool>()).prop_map(|(what, place, timeout, pending_output, hold)| {
+        let pos_round = proptest::option::weighted(
+            0.1,
+            (
+                prop_oneof![4 => Just(0u16), 4 => 1u16..60, 2 => 200u16..400, 1 => Just(1200u16)],
+                (2u8..=50, 1u8..=120),
+                prop_oneof![2 => Just(String::new()), 1 => "[a-z0-9]{1,3}"],
+            )
+                .prop_map(|(delay_ms, at, post)| PosRound { delay_ms, at, post }),
+        );
+        let round = (what, place, timeout, pending, any::<bool>(), pos_round).prop_map(|(what, place, timeout, pending_output, hold, position)| {
+            // position(): the requests must reach a terminal that reads; typed characters keep
+            // their order of arrival only if those of the action are typed before the request
+            let (place, timeout, pending_output) = match &position {
+                Some(pr) => (
+                    match (&what, place) {
+                        (What::Input(_), _) if !pr.post.is_empty() => Place::BeforePoll,
+                        (_, Place::At { point, .. }) => Place::At { point, iter: 0 },
+                        (_, p) => p,
+                    },
+                    Timeout::Infinite,
+                    pending_output.min(4096),
+                ),
+                None => (place, timeout, pending_output),
+            };
             // a poll without timeout blocks in its first select unless output is pending: its
             // trigger must be placed where that poll can reach it
             let place = match (timeout, place) {
@@ -682,7 +807,7 @@ impl Property for C17 {
                 (_, p) => p,
             };
             let hold_stall = hold && pending_output > 4096 && timeout != Timeout::Infinite;
-            Round { what, place, timeout, pending_output, hold_stall }
+            Round { what, place, timeout, pending_output, hold_stall, position }
         });
         let exit = prop_oneof![
             3 => Just(Exit::Drop),
@@ -692,6 +817,7 @@ impl Property for C17 {
             2 => (0u8..3).prop_map(Exit::RenderErr),
             2 => (0u8..3).prop_map(Exit::Signal),
             2 => (0u8..3, 0u8..7).prop_map(|(which, point)| Exit::SignalInDispose { which, point }),
+            2 => (20_000usize..200_000, 1usize..3000).prop_map(|(big, small)| Exit::DropBackpressure { big, small }),
             1 => Just(Exit::MasterClosed),
         ];
         (proptest::collection::vec(round, 0..5), exit)
@@ -718,7 +844,7 @@ impl Property for C17 {
     }
 
     fn rule(&self) -> String {
-        "session = real SystemTerminal on a pseudo-terminal (one per worker process) with a scripted peer; 0-4 rounds, each: {1-3 concurrent wake calls from other threads | the peer types 1-6 characters | raise(SIGWINCH)} placed before the poll or at one of 7 named points (loop start, before/after select, before signal processing, before the waker read, before the tty read, loop end) of loop iteration 0-2 of a poll with timeout 0 / 50 ms / none, optionally with 1-40000 bytes of output pending (above 4096 the peer is stalled, for 30 ms or -- finite timeouts, half of those rounds -- until the round's events have been delivered, which zero-timeout polls must achieve within 2 s although the output stays pending); then drained with zero-timeout polls. Oracles: >=1 and <= #calls Wake events for wake rounds, typed characters delivered in order, >=1 Resize per SIGWINCH round, no spurious Wake. Exit path: drop | drop with pending output | Terminal::run handler error/quit at step k | run_render handler error at step k | SIGTERM/SIGINT/SIGQUIT (must surface as Error::Quit) | SIGTERM/SIGINT/SIGQUIT raised at one of the 7 points of the first poll iteration inside drop | master closed first; afterwards tcgetattr on the slave must equal the snapshot taken before open and (master still open) the bytes received after the last application output must contain ESC[?1003l, ESC[?1006l, ESC[?1000l and ESC[?25h. non-trivial = a trigger placed strictly inside a poll or inside the release, or output pending during a round or at release".into()
+        "session = real SystemTerminal on a pseudo-terminal (one per worker process) with a scripted peer; 0-4 rounds, each: {1-3 concurrent wake calls from other threads | the peer types 1-6 characters | raise(SIGWINCH)} placed before the poll or at one of 7 named points (loop start, before/after select, before signal processing, before the waker read, before the tty read, loop end) of loop iteration 0-2 of a poll with timeout 0 / 50 ms / none, optionally with 1-40000 bytes of output pending (above 4096 the peer is stalled, for 30 ms or -- finite timeouts, half of those rounds -- until the round's events have been delivered, which zero-timeout polls must achieve within 2 s although the output stays pending); then drained with zero-timeout polls. One round in ten calls Terminal::position() instead of poll: the peer answers the cursor position request after 0 / 1-59 / 200-399 / 1200 ms, optionally typing 1-3 characters in the same write as its answer; nothing that arrived meanwhile may be lost or reordered. Oracles: >=1 and <= #calls Wake events for wake rounds, typed characters delivered in order, >=1 Resize per SIGWINCH round, no spurious Wake. Exit path: drop | drop with pending output | Terminal::run handler error/quit at step k | run_render handler error at step k | SIGTERM/SIGINT/SIGQUIT (must surface as Error::Quit) | SIGTERM/SIGINT/SIGQUIT raised at one of the 7 points of the first poll iteration inside drop | drop with the front chunk of the output queue partly transmitted (peer stalled, 20-200 kB written and polled, 1-3000 more bytes queued, peer resumes, drop) | master closed first; afterwards tcgetattr on the slave must equal the snapshot taken before open and (master still open) the bytes received after the last application output must contain ESC[?1003l, ESC[?1006l, ESC[?1000l and ESC[?25h. non-trivial = a trigger placed strictly inside a poll or inside the release, or output pending during a round or at release".into()
     }
 
     fn assumptions(&self) -> Vec<String> {
